@@ -109,7 +109,7 @@ func (h *histRun) refreshModel(why string) {
 func (h *histRun) edit(i int, op *opSpec) error {
 	h.w.op = i
 	switch op.Op {
-	case "break-source", "restore-source", "edit-source", "touch", "rewrite-same", "dir-add", "dir-remove", "dir-rename", "dir-swap", "dir-move", "dir-lift", "dir-sink", "subdir-rename", "delete-generated", "nop":
+	case "break-source", "restore-source", "edit-source", "touch", "rewrite-same", "dir-add", "dir-remove", "dir-rename", "dir-swap", "dir-move", "dir-lift", "dir-sink", "subdir-rename", "delete-generated", "scribble-generated", "nop":
 	default:
 		h.codeEdited = true
 	}
